@@ -118,6 +118,7 @@ pub fn take_last_panic() -> Option<String> {
 pub fn guarded<R>(f: impl FnOnce() -> R) -> Result<R, String> {
     set_quiet_panics(true);
     let r = catch_unwind(AssertUnwindSafe(f));
+    set_quiet_panics(false);
     match r {
         Ok(v) => Ok(v),
         Err(_) => Err(take_last_panic().unwrap_or_else(|| "<panic>".into())),
@@ -150,7 +151,6 @@ impl World {
             .build()
             .expect("runtime");
         verif::activate(slots);
-        set_quiet_panics(true);
         let main = Arc::new(MainState::new_from_config(config));
         World {
             rt,
@@ -203,7 +203,9 @@ impl World {
         };
         let waker = futures::task::noop_waker_ref();
         let mut cx = Context::from_waker(waker);
+        set_quiet_panics(true);
         let r = catch_unwind(AssertUnwindSafe(|| fut.as_mut().poll(&mut cx)));
+        set_quiet_panics(false);
         match r {
             Ok(Poll::Ready(())) => {
                 self.conns[i].fut = None;
@@ -215,7 +217,9 @@ impl World {
                 let msg = take_last_panic().unwrap_or_else(|| "<panic>".into());
                 // tokio would drop the task: drop the future (runs Drop of ConnState)
                 let f = self.conns[i].fut.take();
+                set_quiet_panics(true);
                 let _ = catch_unwind(AssertUnwindSafe(move || drop(f)));
+                set_quiet_panics(false);
                 self.conns[i].life = Life::Panicked(msg);
                 PollOut::Panicked
             }
@@ -519,11 +523,13 @@ impl Drop for World {
     fn drop(&mut self) {
         let _g = self.rt.enter();
         // dropping futures may run Drop impls that panic on a corrupted state
+        set_quiet_panics(true);
         for c in self.conns.iter_mut() {
             let f = c.fut.take();
             let _ = catch_unwind(AssertUnwindSafe(move || drop(f)));
             c.client = None;
         }
+        set_quiet_panics(false);
         verif::deactivate();
     }
 }
